@@ -1,4 +1,5 @@
 import RoutinatorModel.Model.Records
+import RoutinatorModel.Model.ArchiveRead
 import RoutinatorModel.Generated.RecordLayouts
 import RoutinatorModel.Drv.Util
 /-!
@@ -247,6 +248,98 @@ def runC27Status (arg : String) : String :=
       | .error _ => "failed"
       | .ok (r, _) => s!"ok {showRecord r}"
     | _, _, _ => "bad-op"
+  | _ => "bad-op"
+
+
+/-! ## Archives (C27) -/
+
+/-- `<len>:<offset>=<hex>,…` — everything else is zero. -/
+def parseSparse (s : String) : Option ByteArray :=
+  match s.splitOn ":" with
+  | [len, chunks] => do
+    let len ← len.toNat?
+    if len > 67108864 then none
+    let base := ByteArray.mk (Array.replicate len 0)
+    if chunks.isEmpty then pure base else
+    (chunks.splitOn ",").foldlM (fun (acc : ByteArray) (c : String) =>
+      match c.splitOn "=" with
+      | [off, hex] => do
+        let off ← off.toNat?
+        let bytes ← parseHex hex
+        if off + bytes.length > len then none
+        pure ((ByteArray.mk bytes.toArray).copySlice 0 acc off bytes.length)
+      | _ => none) base
+  | _ => none
+
+def AP : ArchiveParams := Generated.archiveParams
+
+def showAErr : AErr → String
+  | .io => "io"
+  | .corrupt => "corrupt"
+  | .panic => "panic"
+  | .hang => "hang"
+
+/-- `archive_err`: a corrupt archive is deleted and the run retried; an I/O error is fatal. -/
+def showRunFailed (deletes : Bool) : AErr → String
+  | .io => "fatal"
+  | .corrupt => if deletes then "retry deleted" else "retry"
+  | .panic => "panic"
+  | .hang => "hang"
+
+def showOpenErr (e : AErr) : String := "open-" ++ showRunFailed true e
+
+def archVerify (file : ByteArray) : String :=
+  match openArchive AP file with
+  | .error e => showAErr e
+  | .ok a =>
+    match verify AP a with
+    | .error e => showAErr e
+    | .ok (n, m) => s!"ok objects={n} empties={m}"
+
+def valNat : Option Val → String
+  | some (.n v) => toString v
+  | _ => "?"
+
+def valMapLen : Option Val → String
+  | some (.m l) => toString l.length
+  | _ => "?"
+
+def archState (file : ByteArray) : String :=
+  match openArchive AP file with
+  | .error e => showOpenErr e
+  | .ok a =>
+    match loadState AP P Generated.repositoryState a with
+    | .error e => showRunFailed true e
+    | .ok r => s!"ok serial={valNat (r.lookup "serial")} deltas={valMapLen (r.lookup "delta_state")}"
+
+def archObjects (file : ByteArray) : String :=
+  match openArchive AP file with
+  | .error e => showOpenErr e
+  | .ok a =>
+    match getIndex a 0 with
+    | .error e => showRunFailed false e
+    | .ok _ =>
+      match objects AP a with
+      | (.error e, n) => s!"{showRunFailed false e} after={n}"
+      | (.ok (n, bytes), _) => s!"ok n={n} bytes={bytes}"
+
+def archLoad (file : ByteArray) (probe : Bytes) : String :=
+  match openArchive AP file with
+  | .error e => showOpenErr e
+  | .ok a =>
+    match fetch AP a probe with
+    | .error e => showRunFailed true e
+    | .ok none => "none"
+    | .ok (some d) => s!"some len={d.length}"
+
+def runC27Archive (arg : String) : String :=
+  match arg.splitOn "|" with
+  | [probe, sparse] =>
+    match parseHex probe, parseSparse sparse with
+    | some probe, some file =>
+      let base := s!"verify=[{archVerify file}] state=[{archState file}] objects=[{archObjects file}]"
+      if validRsync probe then base ++ s!" load=[{archLoad file probe}]" else base
+    | _, _ => "bad-op"
   | _ => "bad-op"
 
 end RoutinatorModel.Drv
